@@ -1364,6 +1364,8 @@ def sch_taskdone(ctx: Ctx) -> RuleResult:
         passed = all(info.get("pool_passed", False) for info in m.dispatch.values() if info.get("callee") == q)
         pool_params = [a.arg for a in f.node.args.posonlyargs + f.node.args.args + f.node.args.kwonlyargs
                        if "ThreadPoolExecutor" in ast.unparse(a.annotation or ast.Constant(value=""))]
+        if f.cls is not None and any((b or "").split(".")[-1] == "ThreadPoolExecutor" for b in f.cls.bases) and f.node.args.args:
+            pool_params.append(f.node.args.args[0].arg)  # a method of a pool subclass: the pool is `self`
         uses_pool = any(c.args and dotted(c.args[0]) in pool_params for c in calls)
         r.ob(passed and uses_pool, {"in": f.short, "receives the scheduler's pool": passed, "submits to it": uses_pool})
         if not (passed and uses_pool):
